@@ -583,7 +583,7 @@ def match_known(known, prop, hname, desc):
 # re-solved when another property of the same run needs it again.  Content
 # addressed; disabled with VERIF_NO_CACHE=1.  Only passes are cached.
 
-CACHE_VERSION = "v3"   # bump when the classification of CBMC results in this file changes
+CACHE_VERSION = "v4"   # bump when the classification of CBMC results in this file changes
 
 
 def _harness_view(h):
@@ -603,7 +603,8 @@ def _harness_view(h):
                 j += 1
             i = j + 1
             continue
-        out.append(lines[i])
+        if not lines[i].startswith("//@"):   # annotations (timeout, memory cap, wording) do not affect the verdict
+            out.append(lines[i])
         i += 1
     return "\n".join(out)
 
